@@ -1,3 +1,4 @@
+import IsobarV.Auto.Drv
 import IsobarV.Midi.Drv
 import IsobarV.Notation.Drv
 import IsobarV.IO.Drv
@@ -13,4 +14,5 @@ def main (args : List String) : IO UInt32 := do
   | ["io"] => IsobarV.IO.Drv.main; return 0
   | ["notation"] => IsobarV.Notation.Drv.main; return 0
   | ["midi"] => IsobarV.Midi.Drv.main; return 0
+  | ["auto"] => IsobarV.Auto.Drv.main; return 0
   | _ => IO.eprintln s!"usage: driver <suite>; unknown: {args}"; return 2
